@@ -87,6 +87,14 @@ Definition nontrivial (D : document) : bool :=
                     | _ => false
                     end) (all_sels D).
 
+(** a variable nested in a list / object literal given for a scalar (TypeInfo.ScalarLiteralValues) *)
+Definition var_in_scalar_literal (Sc : schema) (F : features) (D : document) : bool :=
+  match type_info (q_unwrap_obj repaired) Sc F D with
+  | Some A => existsb (fun n => match n with NValue (VVar a _ _ _) => va_scalar a | _ => false end)
+                      (tree_nodes (tree_doc A))
+  | None => false
+  end.
+
 Definition intent_of (l : list sexp) : option (option bytes) :=
   match field1 "intent" l with
   | Some (SSym _) => Some None
@@ -153,6 +161,7 @@ Definition check (c : sexp) : sexp :=
                     v_ok ((if spec_valid then ["valid"] else ["invalid"; String.append "violates-" (hd "" bad)])
                           ++ guard
                           ++ (if stable then [] else ["order-sensitive-locations"])
+                          ++ (if var_in_scalar_literal Sc F D then ["var-in-scalar-literal"] else [])
                           ++ (if nontrivial D then ["nontrivial"] else []))
                 end
           | _, _, _, _, _ => v_bad "decode"
